@@ -375,7 +375,9 @@ impl<'a> Lower<'a> {
 
     fn free_all(&self) {
         // Init tables
-        let (last, tables) = self.children.split_last().unwrap();
+        let Some((last, tables)) = self.children.split_last() else {
+            return; // nothing to manage
+        };
         // Table is fully included in the memory range
         for table in tables {
             unsafe { table.non_atomic() }.fill(HugeEntry::new_with(Bitfield::LEN));
@@ -410,7 +412,9 @@ impl<'a> Lower<'a> {
 
     fn reserve_all(&self) {
         // Init table
-        let (last, tables) = self.children.split_last().unwrap();
+        let Some((last, tables)) = self.children.split_last() else {
+            return; // nothing to manage
+        };
         // Table is fully included in the memory range
         for table in tables {
             unsafe { table.non_atomic() }.fill(HugeEntry::new_huge());
